@@ -20,7 +20,8 @@ RULE = ('profiles are synthesised by the harness from standard message structure
         'swap a datatype (complex -> ST, base -> another base, complex -> another complex) on a segment / group, a field or a component - or '
         'by no edit (restating). A standard-conforming instance that passes through the edit site (modes incl. repeated groups) is built '
         'three ways: Message(name, reference=profile) + add_group/add_segment/value, parse_message(text, message_profile=profile), and '
-        'Message(reference=profile).value = text; TOLERANT and STRICT. Oracle: restating profile => encoding and validation report '
+        'Message(reference=profile).value = text - and, for cardinality edits, a fourth way: built WITHOUT the profile and judged by '
+        'Validator.validate(message, reference=profile structure); TOLERANT and STRICT. Oracle: restating profile => encoding and validation report '
         'identical to no profile; otherwise validate() judges against the profile: an error naming the edited child exactly when the '
         'instance violates the edit (required and absent, capped and repeated, forbidden and present, datatype with incompatible content), '
         'no error at all otherwise, while the standard verdict stays "valid"; STRICT construction refuses forbidden / surplus children; in '
@@ -202,8 +203,13 @@ def _open_ended(v, seg):
     return bool(rows) and rows[-1][2][2] == 'varies'
 
 
-def report(msg):
-    r = msg.validate(return_errors=True)
+def report(msg, reference=None):
+    if reference is not None:
+        # the validator's own entry point: an element judged against a reference given by the caller
+        from hl7apy.validation import Validator
+        r = Validator.validate(msg, reference=reference, return_errors=True)
+    else:
+        r = msg.validate(return_errors=True)
     return [str(e) for e in r.errors], [str(w) for w in r.warnings]
 
 
@@ -275,12 +281,22 @@ def probe_created_children(v, msg, site, kind, newdt, level):
     return out
 
 
+def desc0(v, m, kind, site):
+    return '%s %s: %s at %s/%s (instance holds %d), instance built without the profile' % (
+        v, m, kind, '/'.join(site['groups'] + [site['seg']] + ([site['field']] if site['level'] == 'component' else [])), site['name'], site['count'])
+
+
 def check_edit(case, acc=None):
     from hl7apy.exceptions import HL7apyException
     v, m, tree, lines = case['v'], case['m'], case['tree'], case['lines']
     std = T.message_ref(v, m)
     route, level, kind = case['route'], case['level'], case['kind']
     out = []
+    # 'refarg': the instance is built WITHOUT the profile (its elements carry the standard structure) and judged by
+    # Validator.validate(message, reference=profile structure); cardinality edits only (the elements keep standard datatypes)
+    refarg = route == 'refarg' and kind in ('require', 'max1', 'forbid')
+    if route == 'refarg':
+        route = 'api'
     if kind == 'restate':
         prof = {m: copy_ref(std)}
         try:
@@ -315,6 +331,19 @@ def check_edit(case, acc=None):
     # a segment capped at 1 inside a group makes the group finder open a new group repetition when it recurs: the tree the
     # parser builds is then another (legal) one, so nothing is asserted about that text
     regrouped = kind == 'max1' and site['level'] == 'segment' and bool(site['groups']) and route != 'api'
+    if refarg:
+        try:
+            msg = build(v, m, tree, lines, 'api', level, None)
+            errs, warns = report(msg, prof[m])
+        except Exception as e:
+            return [('C18-reference-argument-raises:%s' % type(e).__name__, '%s: %s' % (desc0(v, m, kind, site), _exc(e)))]
+        d0 = desc0(v, m, kind, site)
+        if violated and not [e for e in errs if name in e]:
+            out.append(('C18-profile-violation-not-reported:%s:%s:reference-argument' % (kind, site['level']), '%s -> errors %r' % (d0, errs[:3])))
+        if not violated and errs:
+            out.append(('C18-profile-conforming-message-rejected:%s:%s:reference-argument' % (kind, site['level']), '%s -> errors %r' % (d0, errs[:3])))
+        case['_site'] = (site['level'], bool(site['groups']), kind)
+        return out
     case['_site'] = (site['level'], bool(site['groups']), kind)
     desc = '%s %s: %s %s at %s/%s (instance holds %d)' % (v, m, kind, newdt or '', '/'.join(site['groups'] + [site['seg']] + ([site['field']] if site['level'] == 'component' else [])), name, site['count'])
     try:
@@ -418,7 +447,7 @@ def cases(draw, cells):
     tree = draw(G.instances(v, m, mode=mode, unique=True))
     lines = draw(G.instance_lines(v, m, tree, R.full(R.DEFAULT_EC), conforming=True, p_opt=draw(st.sampled_from([1, 2, 3]))))
     eligible = G.eligible(v, m, tree)
-    route = draw(st.sampled_from(['api', 'parse', 'value'] if eligible else ['api']))
+    route = draw(st.sampled_from(['api', 'parse', 'value', 'refarg'] if eligible else ['api', 'api', 'refarg']))
     return {'kind': draw(st.sampled_from(KINDS)), 'v': v, 'm': m, 'tree': tree, 'lines': lines, 'route': route,
             'level': draw(st.sampled_from([TOL, TOL, STRICT])), 'pick': draw(st.integers(0, 5000))}
 
